@@ -13,7 +13,7 @@ def main(tier: str, seed: int) -> int:
     run = Run(PROP, tier, seed)
     extra = {"start_rules": "all", "positions": True, "extra_alpha": " #"}
     shards = []
-    shards += E.random_shards(PROP, run, JUDGES, profile="full", count=run.pick(45, 500), cap=run.pick(120, 300), maxlen=run.pick(4, 5), extra=extra)
+    shards += E.random_shards(PROP, run, JUDGES, profile="full", count=run.pick(45, 500), cap=run.pick(120, 300), maxlen=run.pick(4, 5), extra={**extra, "long_inputs": 2})
     shards += E.random_shards(PROP, run, JUDGES, profile="trivia", count=run.pick(25, 300), cap=run.pick(120, 300), maxlen=4, extra=extra)
     shards += E.random_shards(PROP, run, JUDGES, profile="stack", count=run.pick(25, 300), cap=run.pick(120, 300), maxlen=5, extra={"start_rules": "all", "positions": True})
     shards += E.matrix_shards(PROP, run, JUDGES, sample=run.pick(1600, 0), cap=run.pick(150, 400), extra={"positions": True})
